@@ -5,7 +5,7 @@ Request:  tokens, registry starts empty, clock starts at 0:
   `t<now>`                       the clock reads `now` from here on (no answer token)
   `al<id>:<bundle>`              add_longterm_bundle      -> `ok` | `E:lifetime` | `E:sig` | `PANIC`
   `ao<id>:<bundle>`              add_onetime_bundle       -> same
-  `ql<id>`                       long-term key_bundle     -> `b<prekey>` | `-` | `E:expired`
+  `ql<id>`                       long-term key_bundle     -> `b<prekey>[!]` | `-` | `E:expired`   (`!` = the bundle's signature does not verify)
   `qo<id>`                       one-time key_bundle      -> `b<prekey>` | `-`
   `rx`                           remove_expired           -> `ok`
   `sl<id>:<bundle>;<bundle>..`   restore member id's long-term list from persistence (`sl<id>:-` empty) -> `ok`
@@ -62,7 +62,7 @@ def errStr : Err → String
   | .lifetime => "E:lifetime" | .sig => "E:sig" | .identity => "PANIC" | .expired => "E:expired"
 
 def bStr : Option Bundle → String
-  | some b => s!"b{b.prekey}"
+  | some b => s!"b{b.prekey}" ++ (if sigOk b then "" else "!")
   | none => "-"
 
 structure St where
